@@ -174,4 +174,28 @@ CHECKS = {
         note="Not decided: the 'always succeeds on a feasible placement' "
              "clause; termination of the retry loop with interleaved "
              "reservations. Assumes alignments >= 1."),
+    "C08": dict(
+        technique="symbolic range analysis of the first-fit scan, "
+                  "linear-constraint abstract interpretation under a chosen "
+                  "hypothesis, order-type evaluation of the overlap "
+                  "predicate, normal-form comparison of mask formulas, "
+                  "must-pass-through",
+        text="The first-fit scan's last tried position plus the length "
+             "equals the bit-field length the acceptance test allows (R1). "
+             "With start_at given, the field is recorded only if 0 <= "
+             "start_at and start_at + (length or 1) <= length of the bit "
+             "field; the overlap test over potential_fields equals "
+             "half-open intersection on all endpoint orderings (R2). Mask, "
+             "occupancy and field-bit expressions are one formula "
+             "((1<<L)-1)<<S, values shift by the same S, out-of-range "
+             "values rejected (R3). Occupancy accumulates over "
+             "potential_fields and over each placement's result, which "
+             "always includes the new field's bits; lengths pass before "
+             "positions, children before parents (R4). max_value follows "
+             "accepted values (R5). Tags reach every required ancestor, no "
+             "early exit (R6).",
+        note="Not decided: non-overlap for every hierarchy shape (contents "
+             "of the field tree); that distinct complete assignments never "
+             "match each other; exactness of the log2-based automatic "
+             "length above 2**48. Assumes field lengths >= 1."),
 }
